@@ -19,7 +19,6 @@ import (
 	"time"
 
 	"github.com/slackhq/nebula/cert"
-	"github.com/slackhq/nebula/cert/p256"
 	cl "verifharness/certlib"
 	"verifharness/hlib"
 )
@@ -453,7 +452,7 @@ func (g *genState) realLeaf(ca *caInfo) {
 	}
 	// the other signature form of the same content is a different certificate with the twin fingerprint
 	if c.Curve() == cert.Curve_P256 && r.Chance(1, 2) {
-		if tw, err := p256.Swap(c.Signature()); err == nil {
+		if tw, err := cl.SwapSig(c.Signature()); err == nil {
 			traw := cl.Craft(cl.FieldsOf(c), nil, tw)
 			if tc, err := cl.Decode(f.Version, traw); err == nil {
 				if r.Bool() {
